@@ -771,6 +771,9 @@ def gate_constructions() -> list:
     special['RSU3Gate'] = [
         (lambda i=i: G.RSU3Gate(i)) for i in (0, 3, 7)
     ]
+    from vf.c11_passes import HarnessPhaseGate
+    out.append(('HarnessPhaseGate(1.0)', lambda: HarnessPhaseGate(1.0)))
+    out.append(('HarnessPhaseGate(0.5)', lambda: HarnessPhaseGate(0.5)))
     abstract = {'ComposedGate', 'QuditGate', 'GeneralGate'}
     seen_cls = set()
     for name in G.__all__:
@@ -892,6 +895,27 @@ def check_gate(label: str, g: Any, seed: int) -> list:
         if is_single and nm in ('pickle', 'dill') and h is not g:
             out.append(('gate-%s-duplicates-cached-singleton-%s' % (
                 nm, short), ''))
+        # inside a circuit (twice, at two parameter points)
+        try:
+            from bqskit.ir.circuit import Circuit
+            c = Circuit(g.num_qudits, g.radixes)
+            loc = list(range(g.num_qudits))
+            c.append_gate(g, loc, pts[1])
+            c.append_gate(g, loc, pts[0])
+            c2 = fn(c)
+            uc, uc2 = _unitary(c), _unitary(c2)
+            okc = (circuit_key(c2) == circuit_key(c) and c2 == c
+                   and [float(x) for x in c2.params]
+                   == [float(x) for x in c.params]
+                   and (uc == uc2 if isinstance(uc, str)
+                        or isinstance(uc2, str)
+                        else np.allclose(uc, uc2, atol=1e-12)))
+            if not okc:
+                out.append(('circuit-%s-with-gate-differs-%s' % (nm, short),
+                            '%s vs %s' % (circuit_key(c), circuit_key(c2))))
+        except Exception as e:
+            out.append(('circuit-%s-with-gate-raises-%s-%s' % (
+                nm, type(e).__name__, short), str(e)[-200:]))
         # as an operation
         if nm == 'deepcopy':
             continue
@@ -1552,6 +1576,22 @@ def run(ctx: Ctx) -> None:
     deadline = ctx.t0 + (1700 if thorough else 85)
     run_circuits(ctx, viols, deadline)
 
+    ctx.assumptions.extend([
+        'MachineModel, GateSet, PassData and Workflow define no __eq__: for '
+        'them "equal" is judged field by field through the public API by '
+        'comparators of the harness; Circuit, gates, Operation and '
+        'CouplingGraph must additionally satisfy their own == (and hash)',
+        'a history is not continued past a call that raised; a state whose '
+        'next/prev links already disagree with its grid (C05 territory) is '
+        'exempt from the link comparison, everything else is still judged',
+        'become() is judged for equality only (the statement asks for '
+        'independence of copy() alone)',
+        'history depth is counted from five seed circuits (two empty, three '
+        'built by 3-5 appends incl. a CircuitGate, a nested CircuitGate and '
+        'qutrit gates)',
+    ])
+    if not ctx.cov['samples']:
+        ctx.sample({'passdata-case': pc[-1]})
     viols.sort(key=lambda v: (v[3], len(repr(v[2])), repr(v[2])))
     for sig, what, rep, _ in viols:
         ctx.violation(sig, what, rep)
